@@ -80,4 +80,13 @@ CLAIMED.update({
          "note": TB + "slog's JSON escaping is standard library (framing checked, escaping not modelled).",
          "technique": "Coq proof (per-step characterisations) + correspondence with a mirrored JSON handler judged by vm_compute"},
 })
+CLAIMED["C19"] = {"text": "Coq theorems over the mute machine for EVERY timed event list: status lines always written; without Ctrl+O nothing "
+                 "is ever dropped; muting starts only with Ctrl+O; output is dropped iff muted at that instant; while muted the timer is armed for "
+                 "exactly pause after the last Ctrl+O / dropped output (invariant of all reachable states), so muting ends by itself exactly then, "
+                 "announced, with no input needed; closed-form muted interval; repeated Ctrl+O changes nothing; pause = 2000 ms (checked against the "
+                 "source on every run). Tie: the REAL opshell.New shell (timer callback, ^O handler, writePlain, handleOutput) is replayed inside "
+                 "testing/synctest as a pty child on the exhaustive gap grid {0,1,500,1999,2000,2001} ms to depth 3 plus random ms schedules "
+                 "(~6500 per quick run), compared per instant with the model and with the statement's monitor, in Coq.",
+         "note": TB + "virtual clock of synctest = model clock; goxterm rendering and the lock order between goxterm and Shell.wL are outside.",
+         "technique": "Coq proof (invariant + closed-form case analysis with lia) + virtual-time differential correspondence judged by vm_compute"}
 NOT_CLAIMED = {}
